@@ -204,7 +204,9 @@ pub fn project(s: &PushState) -> Value {
             "max_i": c.max_random_integer, "min_i": c.min_random_integer,
             "push_limit": c.eval_push_limit,
             "time_limit": clamp_i32(c.eval_time_limit as u128),
-            "growth_cap": clamp_i32(c.growth_cap as u128),
+            // a cap beyond 32 bits is reported as -1 - (usize::MAX - cap) clamped at -1000 (the trace specification has no
+            // 64-bit numbers): "negative = no step can exceed it"
+            "growth_cap": if c.growth_cap > i32::MAX as usize { -1 - (usize::MAX - c.growth_cap).min(999) as i64 } else { c.growth_cap as i64 },
             "new_name_p": f2j(c.new_erc_name_probability),
             "max_rand_points": c.max_points_in_random_expressions,
             "max_prog_points": c.max_points_in_program,
@@ -278,7 +280,10 @@ pub fn build(v: &Value) -> PushState {
         cfg.min_random_integer = c["min_i"].as_i64().unwrap() as i32;
         cfg.eval_push_limit = c["push_limit"].as_i64().unwrap() as i32;
         cfg.eval_time_limit = c["time_limit"].as_u64().unwrap();
-        cfg.growth_cap = c["growth_cap"].as_u64().unwrap() as usize;
+        cfg.growth_cap = match c["growth_cap"].as_i64() {
+            Some(x) if x < 0 => usize::MAX - ((-x - 1) as usize),      // -1 = usize::MAX, -2 = usize::MAX - 1, ...
+            _ => c["growth_cap"].as_u64().unwrap() as usize,
+        };
         cfg.new_erc_name_probability = j2f(&c["new_name_p"]);
         cfg.max_points_in_random_expressions = c["max_rand_points"].as_i64().unwrap() as i32;
         cfg.max_points_in_program = c["max_prog_points"].as_i64().unwrap() as i32;
